@@ -128,6 +128,7 @@
  "timeout": 900,
  "functions": ["lib/ext2fs/link.c:link_proc", "lib/ext2fs/dir_iterate.c:ext2fs_get_rec_len", "lib/ext2fs/dir_iterate.c:ext2fs_set_rec_len"],
  "assumes": ["SYMBOLIC BLOCK OF 256 BYTES (blocksize argument and fs->blocksize are 256): smaller than any legal ext2 block size; link_proc and the rec_len helpers depend on the block size only through comparisons with it (and the < 65536 branch), so this is evidence parametric in the block size, not a proof for 1024/4096-byte blocks, which CBMC cannot do (every typed access at a symbolic offset costs O(block size) and the SAT problem grows ~5x per doubling: 64 B 14 s, 128 B 70 s, 256 B > 250 s per clause); pre-state case: E live, follower absorbable", "requested names are therefore limited to what fits (name_len <= 248); IN.namelen itself ranges over 1..255", "the entry handed to the callback satisfies what ext2fs_process_dir_block checks before calling: 4-aligned offset < blocksize-8, rec_len >= 8, multiple of 4, offset+rec_len <= blocksize, name_len+8 <= rec_len, and it is not the checksum tail (the caller does not pass DIRENT_FLAG_INCLUDE_CSUM)", "ls->namelen == strlen(ls->name) <= 255, ls->err == 0, ls->sb == fs->super, callback blocksize == fs->blocksize (block directories; inline-data directories are not covered)", "libc strncpy is an over-approximating stub in the unit: the whole block becomes arbitrary except that, at every byte position the code or the specification later reads (headers of E, of the entry behind E, of the tail slot, the frame byte k, name byte j of both entries), bytes outside dst[0..n) are unchanged and dst[j] has the ISO C value; destination range asserted to be inside the block", "without the filetype feature the type byte of the new entry is only claimed to be 0 when the reused slot's stale type byte was 0 (always the case on a filesystem that never had the feature)", "superblock feature words other than metadata_csum / filetype bits arbitrary"],
+ "backend": "kissat",
  "native": false
 }
 */
